@@ -66,6 +66,13 @@ def api_tail(rng, nreac, can_edit=True, can_export=True, extras=()):
             if prev["s"] == "render":
                 edited_since = {kk: vv for kk, vv in prev.items() if kk != "inplace"}
             prev = None
+    import json as _json
+
+    h = K.hash64(_json.dumps(steps, sort_keys=True))
+    if h % 4 == 0:
+        # the user also writes the reactions to a file after the first rendering (read-only in intent)
+        first = next(i for i, st in enumerate(steps) if st["s"] in ("render", "to_code", "export"))
+        steps.insert(first + 1, {"s": "write", "fmt": ["naunet", "naunet", ""][(h // 4) % 3]})
     return steps
 
 
@@ -177,7 +184,10 @@ def fam_api_text(rng, idx, cfg, lists, fmt):
 def fam_api_krome_custom(rng, idx):
     variant = rng.randrange(3)
     commons = [["user_crate", "user_Av"], ["user_zeta"], []][variant]
-    vars_ = [["invT2 = 1.0/Tgas/Tgas"], ["sqT = sqrt(Tgas)", "T4 = Tgas/1.0d4"], []][variant]
+    # (@var expressions that use SEVERAL of the built-in derived symbols Te, lnTe, T32, invT, invTe,
+    # sqrTgas, and each other: whatever orders the declarations must not do so through a set)
+    vars_ = [["invT2 = 1.0/Tgas/Tgas", "k3b = 1.3d-32*T32**(-0.38d0)*invT*sqrTgas"],
+             ["sqT = sqrt(Tgas)", "T4 = Tgas/1.0d4", "kte = 2.0d0*Te*invTe*lnTe + sqT*T4*invT"], []][variant]
     fmtline = rng.choice(["@format:idx,R,R,P,P,P,Tmin,Tmax,rate", "@format:idx,R,R,R,P,P,Tmin,Tmax,rate", None])
     lines = ["# generated krome network"]
     if commons:
@@ -199,9 +209,9 @@ def fam_api_krome_custom(rng, idx):
     rates += rng.sample(["4.380E-08*(T32)**(-5.000E-01)", "4.380e-08*(T32)**(-5.000e-01)", "6.400E-10", "6.400e-10",
                          "2.0d-9*EXP(-5.0d2*invT)", "1.0d-17*SQRT(Tgas)"], 3)
     if variant == 0:
-        rates += ["1.3d-17*user_crate", "invT2*1.0d-5"]
+        rates += ["1.3d-17*user_crate", "invT2*1.0d-5", "k3b*2.0d0"]
     if variant == 1:
-        rates += ["user_zeta*2.0d0", "sqT*1.0d-12/T4"]
+        rates += ["user_zeta*2.0d0", "sqT*1.0d-12/T4", "kte*1.0d-11"]
     for i, (R, P) in enumerate(reacs):
         R = (R + [""] * nslot[0])[: nslot[0]]
         P = (P + [""] * nslot[1])[: nslot[1]]
@@ -722,7 +732,8 @@ def pinned_descriptions():
     for i, (R, P, t) in enumerate([(["H", "H"], ["H2"], 100), (["C", "O"], ["CO"], 100), (["O", "H2"], ["H2O"], 100), (["O", "O"], ["O2"], 100)]):
         steps.append({"s": "add_inst", "R": R, "P": P, "pseudo": [], "alpha": round((i + 1) * 1.3e-10, 13), "rtype": t, "idx": -1})
     steps += [{"s": "shielding_inplace", "values": {"H2": "L96Table"}},
-              {"s": "render", "solver": "cvode", "method": "sparse", "device": "cpu", "pattern": True}, {"s": "rm_idx", "i": 0},
+              {"s": "render", "solver": "cvode", "method": "sparse", "device": "cpu", "pattern": True},
+              {"s": "write", "fmt": "naunet"}, {"s": "rm_idx", "i": 0},
               {"s": "render", "solver": "cvode", "method": "sparse", "device": "cpu", "pattern": True, "inplace": True},
               {"s": "to_code", "solver": "odeint", "method": "rosenbrock4", "device": "cpu"}]
     p2 = {"id": "pinned-noindex-0", "family": "pinned-noindex", "entry": "api", "name": "simproj", "files": {},
@@ -779,8 +790,8 @@ def build_library(seed, tier):
     twins = []
     for d in lib:
         rsteps = [i for i, st in enumerate(d["steps"]) if st["s"] in RENDER_KINDS]
-        if d["entry"] == "api" and (len(rsteps) >= 2 or any(st["s"] == "touch" for st in d["steps"])) and rsteps:
-            keep = [st for i, st in enumerate(d["steps"]) if (st["s"] not in RENDER_KINDS and st["s"] != "touch") or i == rsteps[-1]]
+        if d["entry"] == "api" and (len(rsteps) >= 2 or any(st["s"] in ("touch", "write") for st in d["steps"])) and rsteps:
+            keep = [st for i, st in enumerate(d["steps"]) if (st["s"] not in RENDER_KINDS and st["s"] not in ("touch", "write")) or i == rsteps[-1]]
             twins.append(dict(d, id=d["id"] + "~last", steps=keep, twin_of=d["id"]))
     # sibling variants (solo only, like the twins above): the same script with a SECOND network
     # built from the first one's reactions and edited / rendered just before the last rendering.
@@ -882,7 +893,7 @@ def features(d):
             f.add("edit_between_renderings")
     if any(st.get("inplace") for st in d["steps"]):
         f.add("in_place_rerender_after_edit")
-    for k in ("export", "to_code", "cli_render", "touch", "add_str", "set_eb", "shielding_inplace"):
+    for k in ("export", "to_code", "cli_render", "touch", "add_str", "set_eb", "shielding_inplace", "write"):
         if k in kinds:
             f.add("step_" + k)
     if len(d.get("files", {})) >= 2 and d["entry"] == "api" and len({v.split(".")[-1] for v in d["files"]}) >= 2:
@@ -896,4 +907,4 @@ ESSENTIAL_FEATURES = ["two_grain_charge_states", "cooling", "replacement_table",
                       "cli_binding_energy", "cli_loads_custom_format", "two_isolated_required_species", "krome_var_common",
                       "krome_format_line", "edit_between_renderings", "in_place_rerender_after_edit", "step_export",
                       "surface_prefix_G", "reactions_without_file_index", "ode_modifier", "rate_modifier", "step_add_str",
-                      "step_shielding_inplace"]
+                      "step_shielding_inplace", "step_write"]
